@@ -88,6 +88,12 @@ type World struct {
 	TaskG  []*simrt.G
 	pending []Violation // violations found by per-step hooks
 	StableReason string
+	CloseReturnStep uint64
+	CloseReturnT    time.Duration
+	quietMark       struct {
+		set                bool
+		dials, zk, frames int
+	}
 }
 
 var errStop = errors.New("stopped by a per-step oracle")
@@ -389,6 +395,9 @@ func (w *World) closeClient() {
 	}
 	if w.Admin != nil {
 		gohbase.VerifCloseAdmin(w.Admin)
+	}
+	if !w.CloseReturned {
+		w.CloseReturnStep, w.CloseReturnT = w.Env.Step, w.Env.Now()
 	}
 	w.CloseReturned = true
 }
